@@ -1325,7 +1325,7 @@ fn fd_exhaustion_cells() -> Vec<(String, Option<(String, String)>)> {
 // every other one, whatever the (larger) connect timeout, for an address literal, a name with one
 // address, a name with several, a proxy, and the target of a redirect.
 //
-pub const CONNECT_STALL_KINDS: [&str; 9] = [
+pub const CONNECT_STALL_KINDS: [&str; 10] = [
     "ip-literal",
     "one-address-name",
     "two-address-name",
@@ -1336,6 +1336,9 @@ pub const CONNECT_STALL_KINDS: [&str; 9] = [
     "ct-under-deadline:ip-literal",
     "ct-under-deadline:one-address-name",
     "ct-under-deadline:two-address-name",
+    // six addresses that never answer ahead of one that accepts (at 1.2 s) and then stays silent: the
+    // deadline counts from the start of the call, not from the moment the connection stands
+    "slow-connect-then-stall",
 ];
 
 fn connect_stall_cases() -> Vec<(String, Option<(String, String)>, bool)> {
@@ -1352,9 +1355,11 @@ fn connect_stall_cases() -> Vec<(String, Option<(String, String)>, bool)> {
         let mut more_holes = Vec::new();
         let n_more = match kind {
             "two-address-name" => 1,
-            "six-address-name" => 5,
+            "six-address-name" | "slow-connect-then-stall" => 5,
             _ => 0,
         };
+        // (kept until the end of the case: a listener that is never accepted from)
+        let silent_live = TcpListener::bind("127.0.0.1:0").unwrap();
         for _ in 0..n_more {
             match crate::c17::black_hole(false) {
                 Some(h) => more_holes.push(h),
@@ -1362,7 +1367,13 @@ fn connect_stall_cases() -> Vec<(String, Option<(String, String)>, bool)> {
             }
         }
         #[allow(non_snake_case)]
-        let (T_MS, ct_ms): (u64, u64) = if under { (5000, 300) } else { (700, 5000) };
+        let (T_MS, ct_ms): (u64, u64) = if under {
+            (5000, 300)
+        } else if kind == "slow-connect-then-stall" {
+            (1800, 5000)
+        } else {
+            (700, 5000)
+        };
         let base = |url: &str| attohttpc::get(url).timeout(Duration::from_millis(T_MS)).connect_timeout(Duration::from_millis(ct_ms)).read_timeout(Duration::from_secs(5));
         let mut server = None;
         let rb = match kind {
@@ -1371,9 +1382,12 @@ fn connect_stall_cases() -> Vec<(String, Option<(String, String)>, bool)> {
                 attohttpc::verif::set_resolution("hole.test", Some(vec![hole.addr]));
                 base("http://hole.test:7777/x")
             }
-            "two-address-name" | "six-address-name" => {
+            "two-address-name" | "six-address-name" | "slow-connect-then-stall" => {
                 let mut addrs = vec![hole.addr];
                 addrs.extend(more_holes.iter().map(|h| h.addr));
+                if kind == "slow-connect-then-stall" {
+                    addrs.push(silent_live.local_addr().unwrap());
+                }
                 attohttpc::verif::set_resolution("hole.test", Some(addrs));
                 base("http://hole.test:7777/x")
             }
@@ -1406,6 +1420,7 @@ fn connect_stall_cases() -> Vec<(String, Option<(String, String)>, bool)> {
         if let Some(h) = server {
             let _ = h.join();
         }
+        drop(silent_live);
         let shown: String = format!("{res:?}").chars().take(120).collect();
         // attempts start 200 ms apart; each ends at the deadline or after its connect timeout, whichever is first
         let bound = if under { ct_ms + 200 * n_more as u64 + 600 } else { T_MS + 600 };
@@ -1554,7 +1569,6 @@ pub fn c13(ctx: &Ctx) -> Report {
             ctx.violation(format!("C13:{sig}"), what.clone(), json!({"engine": "c13", "phase": p}), 0);
         }
     }
-    let tls_cells = tls_handle.join().unwrap_or_else(|_| vec![("tls-body-cut".to_string(), Some(("panic".to_string(), "the TLS body cells panicked".to_string())))]);
     let mut extras = extra_timing_cases();
     let mut connect_stall_skipped = 0u64;
     for (name, viol, ran) in connect_stall_cases() {
@@ -1567,7 +1581,6 @@ pub fn c13(ctx: &Ctx) -> Report {
     extras.push(tiny_timeout_sweep());
     extras.extend(coded_body_cut_cases());
     extras.extend(fd_cells);
-    extras.extend(tls_cells);
     {
         let (name, viol, ran) = loser_attempt_case();
         if ran {
@@ -1630,6 +1643,15 @@ pub fn c13(ctx: &Ctx) -> Report {
         retried += s.retried;
         for (k, v) in &s.outcomes {
             *outcomes.entry(k.clone()).or_insert(0) += v;
+        }
+    }
+    // the TLS body cells ran alongside all of the above
+    let tls_cells = tls_handle.join().unwrap_or_else(|_| vec![("tls-body-cut".to_string(), Some(("panic".to_string(), "the TLS body cells panicked".to_string())))]);
+    let n_extras = n_extras + tls_cells.len() as u64;
+    for (name, viol) in tls_cells {
+        ctx.outcome(format!("extra:{}", if viol.is_none() { "ok" } else { "violation" }));
+        if let Some((sig, what)) = viol {
+            ctx.violation(format!("C13:{sig}"), format!("{name}: {what}"), json!({"engine": "c13", "extra": name}), 1);
         }
     }
     let distinct = outcomes.len() as u64;
